@@ -36,43 +36,7 @@ RT = "cardillo/solver/rattle.py"
 START, END = "START", "END"
 
 
-class Terms:
-    """expression -> [(Fraction, (atoms...))]; atoms are strings; numeric constants fold into the coefficient."""
-
-    def __init__(self, fn, atom):
-        self.atom = atom
-        self.local = {}
-        for n in ast.walk(fn):
-            if isinstance(n, ast.Assign) and len(n.targets) == 1 and isinstance(n.targets[0], ast.Name):
-                self.local.setdefault(n.targets[0].id, []).append(n.value)
-
-    def expand(self, e, depth=0):
-        if depth > 20:
-            raise AnalysisError("C19: expression too deep")
-        if isinstance(e, ast.Constant) and isinstance(e.value, (int, float)):
-            return [(Fraction(e.value).limit_denominator(10**6), ())] if e.value != 0 else []
-        if isinstance(e, ast.UnaryOp) and isinstance(e.op, ast.USub):
-            return [(-c, f) for c, f in self.expand(e.operand, depth + 1)]
-        if isinstance(e, ast.UnaryOp) and isinstance(e.op, ast.UAdd):
-            return self.expand(e.operand, depth + 1)
-        if isinstance(e, ast.BinOp):
-            if isinstance(e.op, ast.Add):
-                return self.expand(e.left, depth + 1) + self.expand(e.right, depth + 1)
-            if isinstance(e.op, ast.Sub):
-                return self.expand(e.left, depth + 1) + [(-c, f) for c, f in self.expand(e.right, depth + 1)]
-            if isinstance(e.op, (ast.Mult, ast.MatMult)):
-                L, R = self.expand(e.left, depth + 1), self.expand(e.right, depth + 1)
-                return [(a * b, fa + fb) for a, fa in L for b, fb in R]
-            if isinstance(e.op, ast.Div):
-                R = self.expand(e.right, depth + 1)
-                if len(R) == 1 and R[0][1] == () and R[0][0] != 0:
-                    return [(c / R[0][0], f) for c, f in self.expand(e.left, depth + 1)]
-        a = self.atom(e)
-        if a is not None:
-            return [(Fraction(1), (a,))]
-        if isinstance(e, ast.Name) and len(self.local.get(e.id, [])) == 1 and not isinstance(self.local[e.id][0], ast.Call):
-            return self.expand(self.local[e.id][0], depth + 1)
-        return [(Fraction(1), ("?" + norm_src(e),))]
+from ..wterms import Terms  # noqa: E402
 
 
 def _point(fn_local, t, q):
@@ -189,15 +153,27 @@ def run(ctx):
             return None
         return atom
 
+    # attributes that solve() defines as EXPRESSIONS of System calls (e.g. forces evaluated once per step and cached): inlined where used
+    attr_exprs = {}
+    for n in ast.walk(solve):
+        if isinstance(n, ast.Assign) and len(n.targets) == 1 and isinstance(n.targets[0], ast.Attribute) and dotted(n.targets[0].value) == "self" \
+                and not (isinstance(n.value, ast.Call) and (dotted(n.value.func) or "").startswith("self.system.")) \
+                and any(isinstance(w, ast.Call) and (dotted(w.func) or "").startswith("self.system.") for w in ast.walk(n.value)):
+            attr_exprs[n.targets[0].attr] = n.value
+
+    def inline(e):
+        if isinstance(e, ast.Attribute) and dotted(e.value) == "self" and e.attr in attr_exprs:
+            return attr_exprs[e.attr]
+        return None
     um1, qn1_1 = mid_velocity(r1, "Rattle.R_x1")
-    T1 = Terms(r1, make_atom(r1, START, um1))
+    T1 = Terms(r1, make_atom(r1, START, um1), inline)
     rows = [n for n in ast.walk(r1) if isinstance(n, ast.Assign) and isinstance(n.targets[0], ast.Subscript) and norm_src(n.targets[0].value) == "R"]
     mom1 = [n for n in rows if any(isinstance(x, ast.Attribute) and x.attr == "Mn" for x in ast.walk(n.value))]
     kin = [n for n in rows if n is not (mom1[0] if mom1 else None) and isinstance(n.targets[0].slice, ast.Slice) and n.targets[0].slice.lower is None]
     if len(mom1) != 1 or len(kin) != 1:
         raise AnalysisError(f"{RT}:Rattle.R_x1: momentum / kinematic row not recognised ({len(mom1)}, {len(kin)})")
     um2, _ = mid_velocity(solve, "Rattle.solve")
-    T2 = Terms(solve, make_atom(solve, END, um2))
+    T2 = Terms(solve, make_atom(solve, END, um2), inline)
     b0 = [n for n in ast.walk(solve) if isinstance(n, ast.Assign) and len(n.targets) == 1 and norm_src(n.targets[0]) == "b0" and isinstance(n.value, ast.Call)
           and (dotted(n.value.func) or "").endswith("concatenate")]
     if len(b0) != 1 or not b0[0].value.args or not isinstance(b0[0].value.args[0], (ast.List, ast.Tuple)):
